@@ -166,6 +166,7 @@ func solveScript(dir, name string, sc *Script, perQueryMs int, total time.Durati
 	pctx, pcancel := context.WithCancel(context.Background())
 	defer pcancel()
 	var dmu sync.Mutex
+	finished := 0
 	onResult := func(id int, res string) {
 		dmu.Lock()
 		defer dmu.Unlock()
@@ -199,6 +200,15 @@ func solveScript(dir, name string, sc *Script, perQueryMs int, total time.Durati
 			solverSem <- struct{}{}
 			r := runSolver(pctx, sp, file, perQueryMs, total, onResult)
 			<-solverSem
+			// once two solvers have been through the whole script the third is not waited for
+			dmu.Lock()
+			if r.Err == "" {
+				finished++
+			}
+			if finished >= 2 {
+				pcancel()
+			}
+			dmu.Unlock()
 			mu.Lock()
 			runs = append(runs, r)
 			mu.Unlock()
@@ -220,7 +230,7 @@ func solveScript(dir, name string, sc *Script, perQueryMs int, total time.Durati
 			go func(sp solverSpec, file string) {
 				defer wg.Done()
 				solverSem <- struct{}{}
-				r := runSolver(cctx, sp, file, 1000, time.Duration(nCovers)*1500*time.Millisecond+20*time.Second, func(id int, res string) {
+				r := runSolver(cctx, sp, file, 500, time.Duration(nCovers)*1000*time.Millisecond+20*time.Second, func(id int, res string) {
 					onResult(id, res)
 				})
 				ccancel() // the first cover run to finish ends the other one
